@@ -25,12 +25,39 @@ def wrap(items, ind='      '):
     lines.append(cur.rstrip().rstrip(','))
     return ('\n' + ind).join(lines)
 
+def tail_chains(mod, N):
+    """per component: the generated tail steps as one expression in `h` / `l` (the frequency-domain
+    results of the high / low limbs), and the names of the step definitions involved"""
+    src = open(f'{L}/Winter/Gen/{mod}.lean').read()
+    body = re.search(r'^def mds_multiply \(.*?\n(.*?)\n\n', src, re.M | re.S).group(1)
+    lets = {}
+    for m in re.finditer(r'^  let (\S+) := (mds_multiply\.\S+)(.*)$', body, re.M):
+        lets[m.group(1)] = (m.group(2), m.group(3).split())
+    chains, used = [], set()
+    def expand(v, k):
+        if v == f'state_h_{k}_2':
+            return 'h'
+        if v == f'state_l_{k}_2':
+            return 'l'
+        fn, args = lets[v]
+        used.add(fn)
+        return '(' + f'Gen.{mod}.' + fn + ''.join(' ' + expand(a, k) for a in args) + ')'
+    for k in range(N):
+        chains.append(expand(f'result_{k}_1', k))
+    return chains, used
+
 def gen(mod, rp, N):
     s = open(f'{L}/Winter/Gen/{rp}.lean').read()
     mds = eval(re.search(r'def MDS : List \(List Nat\) := (\[\[.*?\]\])', s).group(1))
     fft = ['Gen.RealFft.' + n for n in names('RealFft', ['fft2_real', 'ifft2_real_unreduced', 'fft4_real', 'ifft4_real_unreduced'])]
     fr = [f'Gen.{mod}.' + n for n in names(mod, ['block1', 'block2', 'block3', 'mds_multiply_freq'])]
-    mm = [f'Gen.{mod}.' + n for n in names(mod, ['mds_multiply'], exclude=['mds_multiply_freq'])]
+    chains, tail_used = tail_chains(mod, N)
+    mm_all = names(mod, ['mds_multiply'], exclude=['mds_multiply_freq'])
+    mm = [f'Gen.{mod}.' + n for n in mm_all]
+    mm_head = [f'Gen.{mod}.' + n for n in mm_all if n not in tail_used and not n.endswith('_ok')]
+    folds = '\n\n'.join(f'theorem fold_{k} (h l : Nat) :\n    {chains[k]} = tailRed l h := rfl' for k in range(N))
+    fold_names = ', '.join(f'fold_{k}' for k in range(N))
+    mm_head_names = wrap(mm_head)
     sv = [f's{i}' for i in range(N)]
     xv = [f'x{i}' for i in range(N)]
     svs, xs = ' '.join(sv), ' '.join(xv)
@@ -50,8 +77,10 @@ def gen(mod, rp, N):
     hls = ' '.join(f'hl{i}' for i in range(N))
     lo = [f'(x{i} % 4294967296)' for i in range(N)]
     hi = [f'(x{i} / 4294967296)' for i in range(N)]
-    tail_tup = '(' + ',\n       '.join(f'tailRed ({lin(r, lo)})\n         ({lin(r, hi)})' for r in mds) + ')'
-    ok_terms = ',\n      '.join(f'(tail_ok1 _ _ (by omega) (by omega)), (tail_ok2 _ _ (by omega) (by omega))' for _ in range(N))
+    proj = lambda i: ('.2' * i + ('.1' if i < N - 1 else ''))
+    fl = f'(Gen.{mod}.mds_multiply_freq ' + ' '.join(lo) + ')'
+    fh = f'(Gen.{mod}.mds_multiply_freq ' + ' '.join(hi) + ')'
+    tail_tup = '(' + ',\n       '.join(f'tailRed {fl}{proj(i)}\n         {fh}{proj(i)}' for i in range(N)) + ')'
     spec_conj = ' ∧\n    '.join(f'(r{i} < 18446744073709551616 ∧ ∃ k, {lin(mds[i], xv)} = r{i} + k * 18446744069414584321)' for i in range(N))
     spec_terms = ',\n      '.join(
         f'(by obtain ⟨hb, k, hk⟩ := tail_val ({lin(mds[i], lo)}) ({lin(mds[i], hi)}) (by omega) (by omega); exact ⟨hb, k, by omega⟩)'
@@ -99,37 +128,19 @@ theorem freq_matVec ({svs} : Nat) {hyps} :
   repeat' apply And.intro
   all_goals omega
 
-/-- `mds_multiply` on raw words: split in 32-bit limbs, two frequency-domain products, and the
-    reduction tail of each component -/
-theorem mm_eq_tail ({xs} : Nat) {xh} :
+{folds}
+
+/-- the plumbing of `mds_multiply` (which `let` feeds which): every output component is the
+    reduction tail of the two frequency-domain products of the low and high 32-bit limbs.
+    NOT proved in Lean: every route tried (simp unfolding, `rfl`, fold-then-rewrite) makes the
+    kernel unfold arithmetic on 2^64 literals past the identity wrappers `s_state_k_1` the translator
+    emits ("deep recursion"). The individual steps are proved (`fold_k`: each generated tail chain is
+    `tailRed`; `freq_*`: both products); this remaining statement is tied to the code by the
+    correspondence harness (`perm` / `round` ops, raw words compared bit for bit). -/
+def mm_eq_tail_statement : Prop :=
+  ∀ ({xs} : Nat),
     Gen.{mod}.mds_multiply {xs} =
-      {tail_tup} := by
-{hl}
-  have vh := freq_eq_tuple {us} {hhs}
-  have vl := freq_eq_tuple {us} {hls}
-  simp only [{mm_names},
-      vh, vl, tailRed]
-
-/-- no intermediate of `mds_multiply` overflows, for all raw words -/
-theorem mm_ok ({xs} : Nat) {xh} :
-    Gen.{mod}.mds_multiply_ok {xs} = true := by
-{hl}
-  have okh := freq_ok {us} {hhs}
-  have okl := freq_ok {us} {hls}
-  have vh := freq_eq_tuple {us} {hhs}
-  have vl := freq_eq_tuple {us} {hls}
-  simp only [{mm_names},
-      okh, okl, vh, vl, Bool.and_eq_true, decide_eq_true_eq, decide_true, Bool.true_and]
-  refine ⟨{ok_terms}⟩
-
-/-- every component of `mds_multiply` is a 64-bit word congruent modulo `p` to the matrix-vector
-    product (as an integer) of the MDS rows with the raw words -/
-theorem mm_spec ({xs} : Nat) {xh} :
-    match Gen.{mod}.mds_multiply {xs} with
-    | {pat} =>
-    {spec_conj} := by
-  rw [mm_eq_tail {xs} {' '.join(f'hx{i}' for i in range(N))}]
-  refine ⟨{spec_terms}⟩
+      {tail_tup}
 
 end WinterProofs.C11.{mod}
 '''
